@@ -8,6 +8,15 @@ import ScrapliProps.C15Lemmas
 namespace Scrapli.Telnet
 open Scrapli Scrapli.Gen.Telnet
 
+/-- what the translator read from the source is what the theorems below are about: the sync transport
+    counts completed commands, the asyncio one does not, and both stay in negotiation mode while
+    `counter < limit` (the comparison the model's `recvStep` uses) -/
+theorem source_is_modelled : syncCounts = true ∧ asyncCounts = false ∧
+    syncLimitCmp = "Lt" ∧ asyncLimitCmp = "Lt" := by decide
+
+/-- both transports' reply chains, as read from the source, are the same table -/
+theorem reply_tables_agree : syncReplyTable = asyncReplyTable := by decide
+
 theorem passOK_sync (items : List Item) (hwf : ∀ i ∈ items, i.wf = true)
     (hN : nCmds items ≤ syncLimit) : PassOK true syncLimit {} (render items) := by
   intro pre suf hsplit hle
@@ -31,6 +40,7 @@ theorem telnet_full_sync (items : List Item) (hwf : ∀ i ∈ items, i.wf = true
     (hN : nCmds items ≤ syncLimit) (tape : List Bytes) (hcs : tape.flatten = render items) :
     runSync tape = (specData items, specReplies items) := by
   unfold runSync run
+  rw [source_is_modelled.1]
   have hp : PassOK true syncLimit {} tape.flatten := hcs ▸ passOK_sync items hwf hN
   obtain ⟨_, h2, _, h4⟩ := pump_fold true syncLimit tape {} [] rfl hp
   show ((tape.foldl (pump true syncLimit) ({}, [])).2, (tape.foldl (pump true syncLimit) ({}, [])).1.writes) = _
@@ -43,11 +53,34 @@ theorem telnet_full_async (items : List Item) (hwf : ∀ i ∈ items, i.wf = tru
     (tape : List Bytes) (hcs : tape.flatten = render items) :
     runAsync tape = (specData items, specReplies items) := by
   unfold runAsync run
+  rw [source_is_modelled.2.1]
   have hp : PassOK false asyncLimit {} tape.flatten := passOK_async _
   obtain ⟨_, h2, _, h4⟩ := pump_fold false asyncLimit tape {} [] rfl hp
   show ((tape.foldl (pump false asyncLimit) ({}, [])).2, (tape.foldl (pump false asyncLimit) ({}, [])).1.writes) = _
   rw [h2, h4, hcs, feed_render false items {} rfl hwf]
   simp [specData, stripNul]
+
+/-- **C15, `read()` by `read()`**: a client that keeps calling `read()` (each call looping over recv
+    results until something is cooked or EOF was read) receives, all results concatenated, exactly
+    the application data — for every segmentation whose only empty recv result (EOF) is the last. -/
+theorem telnet_reads_sync (items : List Item) (hwf : ∀ i ∈ items, i.wf = true)
+    (hN : nCmds items ≤ syncLimit) (tape : List Bytes) (hcs : tape.flatten = render items)
+    (hne : ∀ c ∈ tape.dropLast, c ≠ []) :
+    (reads syncCounts syncLimit {} tape).flatten = specData items := by
+  have h := telnet_full_sync items hwf hN tape hcs
+  have hr := reads_flatten syncCounts syncLimit tape {} [] hne
+  unfold runSync run at h
+  simp only [Prod.mk.injEq] at h
+  rw [← h.1, hr]; simp
+
+theorem telnet_reads_async (items : List Item) (hwf : ∀ i ∈ items, i.wf = true)
+    (tape : List Bytes) (hcs : tape.flatten = render items) (hne : ∀ c ∈ tape.dropLast, c ≠ []) :
+    (reads asyncCounts asyncLimit {} tape).flatten = specData items := by
+  have h := telnet_full_async items hwf tape hcs
+  have hr := reads_flatten asyncCounts asyncLimit tape {} [] hne
+  unfold runAsync run at h
+  simp only [Prod.mk.injEq] at h
+  rw [← h.1, hr]; simp
 
 /-- **C15, segmentation independence**: any two segmentations of the same stream give the same
     data and the same replies. -/
